@@ -21,6 +21,77 @@ pub fn with_script<R>(script: &[u8], f: impl FnOnce() -> R) -> (Result<R, String
     (r, used, log)
 }
 
+/// How many scripted cases were set aside because the library does not take a DEGENERATE scripted value (all bytes
+/// equal: 00..00, FF..FF, ...) as it stands but draws again - which no property forbids. Reported in the evidence.
+pub static NOT_OWNED: std::sync::atomic::AtomicU64 = std::sync::atomic::AtomicU64::new(0);
+
+#[derive(Clone, Copy, PartialEq, Eq, Hash, Debug)]
+pub enum Pinned {
+    /// registration salt (`SrpVerifier::from_username_and_password`)
+    Salt,
+    /// server private key (`SrpVerifier::into_proof`)
+    ServerKey,
+    /// client private key (`SrpClientChallenge::new`)
+    ClientKey,
+}
+
+/// Does the library use this scripted value as it stands? Always true for ordinary values. For a degenerate one
+/// (all 32 bytes equal) the answer is probed once per process: the drawing call is run with the value scripted and
+/// with an ordinary control value; if the library draws MORE often for the degenerate value than for the control,
+/// it refused the value and drew again, and cases that pin it are skipped (counted in NOT_OWNED), not judged.
+pub fn taken_as_is(kind: Pinned, v: &[u8; 32]) -> bool {
+    if !v.iter().all(|b| *b == v[0]) {
+        return true;
+    }
+    static MEMO: std::sync::Mutex<Vec<(Pinned, [u8; 32], bool)>> = std::sync::Mutex::new(Vec::new());
+    if let Some(e) = MEMO.lock().unwrap().iter().find(|e| e.0 == kind && e.1 == *v) {
+        return e.2;
+    }
+    let draws = |val: &[u8; 32]| -> usize {
+        let mut script = val.to_vec();
+        script.extend_from_slice(&refmodel::ctr_bytes(77, "probe-tail", 96));
+        let (_r, _used, log) = match kind {
+            Pinned::Salt => {
+                let (r, u, l) = with_script(&script, || {
+                    let _ = SrpVerifier::from_username_and_password(ns("probe"), ns("probe"));
+                });
+                (r.map(|_| ()), u, l)
+            }
+            Pinned::ServerKey => {
+                let mut vv = [0u8; 32];
+                vv[0] = 0x35;
+                vv[9] = 0x11;
+                let (r, u, l) = with_script(&script, || {
+                    let _ = SrpVerifier::from_database_values(ns("probe"), vv, [3u8; 32]).into_proof();
+                });
+                (r.map(|_| ()), u, l)
+            }
+            Pinned::ClientKey => {
+                let (r, u, l) = with_script(&script, || {
+                    if let Ok(bk) = PublicKey::from_le_bytes(le32_from_u64(1234567)) {
+                        let _ = wow_srp::client::SrpClientChallenge::new(ns("probe"), ns("probe"), GENERATOR, LARGE_SAFE_PRIME_LITTLE_ENDIAN, bk, [3u8; 32]);
+                    }
+                });
+                (r.map(|_| ()), u, l)
+            }
+        };
+        log.len()
+    };
+    let control = ctr_array::<32>(77, "probe-control");
+    let as_is = draws(v) <= draws(&control);
+    MEMO.lock().unwrap().push((kind, *v, as_is));
+    as_is
+}
+
+/// Convenience: false (and counted) if any of the pinned values of a login is refused by the library.
+pub fn login_inputs_taken_as_is(salt: &[u8; 32], b: &[u8; 32], a: &[u8; 32]) -> bool {
+    let ok = taken_as_is(Pinned::Salt, salt) && taken_as_is(Pinned::ServerKey, b) && taken_as_is(Pinned::ClientKey, a);
+    if !ok {
+        NOT_OWNED.fetch_add(1, std::sync::atomic::Ordering::Relaxed);
+    }
+    ok
+}
+
 pub const N_LE: [u8; 32] = LARGE_SAFE_PRIME_LITTLE_ENDIAN;
 
 pub fn le32_from_u64(v: u64) -> [u8; 32] {
@@ -234,6 +305,8 @@ pub enum LoginFail {
     Refused(&'static str, String),
     /// the harness's RNG expectations were not met
     Rng(String),
+    /// the library refuses one of the (degenerate) scripted values and draws again: the case is skipped, not judged
+    Redrawn,
 }
 
 pub struct LoginInput<'a> {
@@ -268,6 +341,9 @@ pub fn unusual_first_use() {
 /// Full login through the public typestate API under a scripted RNG:
 /// draws in order: salt (32), b (32), a (32), server reconnect challenge (16).
 pub fn real_login(i: &LoginInput) -> Result<(RealLogin, SrpServer, wow_srp::client::SrpClient), LoginFail> {
+    if !login_inputs_taken_as_is(&i.salt, &i.b, &i.a) {
+        return Err(LoginFail::Redrawn);
+    }
     let mut script = Vec::with_capacity(112);
     script.extend_from_slice(&i.salt);
     script.extend_from_slice(&i.b);
